@@ -34,6 +34,12 @@ def kwonly(*, k, m=7):
   return (m, k)
 
 
+def kwonly_required(x, *, factor, offset):
+  if x > offset:
+    return x * factor + offset
+  return offset - factor
+
+
 def mutable_default(a, acc=[]):  # pylint:disable=dangerous-default-value
   acc.append(a)
   if len(acc) > 2:
